@@ -55,7 +55,7 @@ def tsan_step(seed):
     import shutil
     shutil.rmtree(out, ignore_errors=True)
     os.makedirs(out)
-    rc, log = C.sh([exe, "--seed", str(seed), "--tier", "quick", "--out", out], env=TSAN_ENV, timeout=3 * 3600)
+    rc, log = C.sh([exe, "--seed", str(seed), "--tier", "search", "--out", out], env=TSAN_ENV, timeout=3 * 3600)
     # children write their stderr to a per-case file; the pool turns a ThreadSanitizer report into an oracle
     # failure of that case and counts it
     reports = log.count("WARNING: ThreadSanitizer")
